@@ -115,7 +115,10 @@ TrNodeStart ==
   /\ ka' = With(ka, N, Get(Cur, "keepalive_ms", 0))
   /\ shutIdle' = With(shutIdle, N, Get(Cur, "shutdown_idle_ms", 60000))
   /\ UNCHANGED <<runStart, lastSend, quietLen, callListed, pathOut, pathIn, closingH>>
-  /\ cfg' = With(cfg, N, [limit |-> NoLimit, interval |-> 0, step |-> 0, maxb |-> 0, cto |-> 0, cap |-> 0])
+  \* what the application configured (the harness logs the configuration it passed in, with the
+  \* documented defaults for unset fields): the manager must come up with exactly these values
+  /\ cfg' = With(cfg, N, [limit |-> Get(Cur, "limit", NoLimit), interval |-> Cur.cfg_interval_ms, step |-> Cur.cfg_step_ms,
+                          maxb |-> Cur.cfg_max_backoff_ms, cto |-> Cur.cfg_connect_timeout_ms, cap |-> Cur.cfg_cap])
   /\ nextTick' = With(nextTick, N, 0)
   /\ UNCHANGED <<conns, tasks, subs, closeT, faultT, beginT>>
 
@@ -131,12 +134,9 @@ TrMgrStart ==
   /\ IsEvent("mgr.start")
   /\ phase[N] = "starting"
   /\ phase' = [phase EXCEPT ![N] = "running"]
-  /\ cfg' = [cfg EXCEPT ![N] = [limit    |-> Get(Cur, "limit", NoLimit),
-                                interval |-> Cur.interval_ms,
-                                step     |-> Cur.step_ms,
-                                maxb     |-> Cur.max_backoff_ms,
-                                cto      |-> Cur.connect_timeout_ms,
-                                cap      |-> Cur.cap]]
+  /\ Get(Cur, "limit", NoLimit) = cfg[N].limit /\ Cur.interval_ms = cfg[N].interval /\ Cur.step_ms = cfg[N].step
+  /\ Cur.max_backoff_ms = cfg[N].maxb /\ Cur.connect_timeout_ms = cfg[N].cto /\ Cur.cap = cfg[N].cap
+  /\ UNCHANGED cfg
   /\ nextTick' = [nextTick EXCEPT ![N] = Cur.t]
   /\ UNCHANGED <<connVars, known, pendingDial, bgResult, backoff, pendingConn, pendEv, conns,
                  tasks, spawnQ, subs, subPos, addrNode, lastAdd, replies, closeT, faultT, idle,
